@@ -21,3 +21,9 @@ check("C04", "exploration", "runtime monitoring: per-stream protocol state machi
       "all ten operations; the simulator stalls like adbd when an OKAY is missing.",
       "Trusted: the simulator's stream model (one WRTE in flight, CLSE answering rules) as described in DESIGN.md 2.2.",
       "DESIGN.md section 4 C04")
+check("C19", "exploration", "runtime monitoring: reference-model monitor (set of model states) over exhaustively enumerated and random operation histories",
+      "The real _AdbPacketStore is driven through every mutator sequence up to length 3 (quick) / 4 (thorough) over a 3x3 id domain and 5 / 6 over a 2x2 domain, "
+      "explored as a state graph, and through long random sequences over larger domains; after every step all observers (len, find, in, find_allow_zeros for every "
+      "wildcard pattern) are compared with an executable model.",
+      "Trusted: vlib/refstore.py as the meaning of the statement; put(CLSE) on a pair with nothing pending is deliberately left open (both outcomes accepted).",
+      "DESIGN.md section 4 C19")
